@@ -226,7 +226,9 @@ class FSA:
             if v not in self._out_dict:
                 self._out_dict[v] = defaultdict(list)
                 self._in_dict[v] = defaultdict(list)
-                self._graph_dict[v] = defaultdict(dict)
+                # a plain dict: a missing label must raise KeyError in
+                # follow_word()/accepts(), not be created on lookup
+                self._graph_dict[v] = {}
 
     def add_edges(self, edges, elist=False,
                   ignore_redundant=True):
